@@ -37,6 +37,13 @@ INFO = {
  "C07-b": ("AnyManifold holds a shared_ptr, defaulted copy assignment", "copy made by copy assignment (also vector assignment), then an in-place write through get<M>()"),
  "C08-b": ("dr<1, Default> ignores a jacobian-only callable (off-by-one in the order concept)", "Default mode, K = 1, callable with jacobian() but no hessian()"),
  "C17-b": ("eulerAngles 'normalises' the middle angle to [-pi/2, pi/2]", "proper-Euler conventions (i1 == i3) and a rotation with |a2| > pi/2"),
+ "C02-c": ("SO3 log closed-form branch: half angle from acos(qw) instead of atan2(|xyz|, qw)", "rotation angle just above the series switch: 2e-4..4e-4 in double (error 2e-9..9e-9), 2e-4..8e-3 in float (up to 100 %); SO3 and every group built on its log"),
+ "C04-c": ("Galilei dr_exp / dr_expinv: the s * R(b, w) term is dropped when s^2 < 1e-8", "Galilei tangent with time coordinate 0 < |s| < 1e-4 and a non-zero boost"),
+ "C05-c": ("SO3 d2r_exp: constant zero-angle Hessian returned below the small-angle switch", "rotation norm in (1.5e-5, 1e-4): SO3 d2r_exp / d2l_exp, rotational blocks of SE3, Bundles with them"),
+ "C08-c": ("index-subset overload of diff::dr short-cuts to the full call when the sequence names every argument", "an index sequence that names all arguments in a non-sorted order (<1,0>, <2,0,1>) and f not symmetric in them"),
+ "C11-c": ("cspline_eval_vs jerk recursion skips factors whose dB is exactly 0", "jerk requested at u exactly 0 or 1 (Bernstein K >= 2, B-spline K = 2, 3)"),
+ "C18-c": ("dr_numerical<1>: function-local static step vector for dynamically sized arguments", ">= 2 threads inside the same diff::dr<1, Numerical> instantiation with a dynamic-size (VectorXd) argument"),
+ "C19-c": ("ad_sparse rewritten without the initial setZero; generators with a(k) == 0 are skipped", "host matrix holding non-zero values from an earlier call and a tangent with an exactly-zero component"),
  "C19-b": ("Bundle dr_exp_sparse / dr_expinv_sparse skip commutative parts", "mixed Bundle (commutative and non-commutative parts) and a host matrix whose stored values on those diagonals are not already 1"),
  "C20-b": ("integrate_absolute_polynomial: stable root formula with sgn(B) = 0 for B = 0", "quadratic with B == 0 exactly, A C < 0 and a root inside the interval"),
  "C02-b": ("SE2 exp rewritten to the textbook sign convention, series branch not updated", "SE2 (also as a Bundle part), rotation angle inside the series branch 1e-9 < |th| < 1e-4, non-zero translation"),
